@@ -210,6 +210,9 @@ def run(cx):
                        f"{fn} returns {show(ret)[:100]}", co.path)
             bad = [c for c in co.calls() if name_matches(c.fn, ("Result::unwrap", "Result::expect", "Option::unwrap", "Option::expect")) and not co.is_cleanup(c.bb)]
             ob.require(not bad, f"{fn}/no-unwrap", f"{fn} unwraps a channel result", co.path)
+        # the public handle adds nothing of its own: Network::{shutdown, is_closed, peers, peer, disconnect} forward to NetworkInner
+        for fn_ in ("shutdown", "is_closed", "peers", "peer", "disconnect"):
+            check_api_forwarder(ob, prog, fn_)
         ib = cx.body(f"{NI}::is_closed")
         t = Origins(ib).of_local(0)
         ob.require(t[0] == "call" and name_matches(t[1], "mpsc::bounded::Sender::is_closed") and mentions_field(t, "connection_manager_handle"), "is_closed", f"is_closed returns {show(t)}", ib.path)
@@ -458,6 +461,28 @@ def run(cx):
                     any(name_matches(c.fn, "HashMap::contains_key") and mentions_field(bo_.of_operand(c.args[0]), "connections") for c in b.calls() if not b.is_cleanup(c.bb)):
                 return True
             return False
+        def rebind_refuses_nothing(site, b):
+            # the wrapper adds no failure of its own: no Err is built in it, its `?`s are on the socket's local_addr() and on quinn's rebind only
+            rb_ = prog.body(f"{EP}::rebind")
+            if rb_ is None:
+                return False
+            ro_ = Origins(rb_)
+            for bl in rb_.blocks:
+                if bl.get("cleanup"):
+                    continue
+                for st in bl["s"]:
+                    if st["k"] == "assign" and st["rv"]["k"] == "agg" and st["rv"].get("adt") == "core::result::Result" and st["rv"].get("variant") == "Err":
+                        return False
+            for c in rb_.calls():
+                if rb_.is_cleanup(c.bb):
+                    continue
+                if name_matches(c.fn, "Try::branch"):
+                    src = strip_identity(ro_.of_operand(c.args[0]))
+                    if not (src[0] == "call" and name_matches(src[1], ("std::net::udp::UdpSocket::local_addr", "quinn::endpoint::Endpoint::rebind"))):
+                        return False
+                elif c.local or name_matches(c.fn or "", ("io::error::Error::new", "io::error::Error::other", "convert::From::from", "convert::Into::into")) and not name_matches(c.fn or "", "FromResidual::from_residual"):
+                    return False
+            return True
         PIN = "anemo::config::EndpointConfig::client_config_with_expected_server_identity"
         allow = {
             f"{PIN}/call:Result::unwrap#0": "rustls safe default protocol versions with the ring provider (static configuration)",
@@ -488,9 +513,9 @@ def run(cx):
             f"{EP}::local_addr/call:Result::unwrap#0": "RwLock<SocketAddr> poisoning: writers only store a value",
             f"{EP}::rebind/call:Result::unwrap#0": "RwLock<SocketAddr> poisoning: writers only store a value",
             f"{sh.path}/call:Result::unwrap#0": "binding an ephemeral localhost UDP socket (documented socket-release hack)",
-            f"{sh.path}/call:Result::unwrap#1": "rebind onto the fresh socket (documented socket-release hack)",
+            f"{sh.path}/call:Result::unwrap#1": ("rebind onto the fresh socket (documented socket-release hack): Endpoint::rebind fails only where the OS / quinn fail, it refuses nothing itself", rebind_refuses_nothing),
             f"{sh.path}/call:Result::unwrap#2": "binding an ephemeral localhost UDP socket (documented socket-release hack)",
-            f"{sh.path}/call:Result::unwrap#3": "rebind onto the fresh socket (documented socket-release hack)",
+            f"{sh.path}/call:Result::unwrap#3": ("rebind onto the fresh socket (documented socket-release hack): Endpoint::rebind fails only where the OS / quinn fail, it refuses nothing itself", rebind_refuses_nothing),
             "anemo::types::address::Address::resolve::{closure#0}/call:Result::unwrap#0": "spawn_blocking join result: the closure only calls to_socket_addrs (no panic); cancellation impossible while awaited",
             f"{MGR}::handle_connectivity_check::{{closure#0}}/call:panicking::panic_fmt#0": ("'BUG: never finished dialing': every dial task output with a oneshot is answered in handle_connecting_result", dial_bug_discharged),
         }
